@@ -1033,7 +1033,7 @@ macro_rules! impl_shifts {({$($rhs:ty),+}) => {
     $(
         impl ShlAssign<$rhs> for Bvd {
             fn shl_assign(&mut self, rhs: $rhs) {
-                let shift = usize::try_from(rhs).map_or(0, |s| s);
+                let shift = usize::try_from(rhs).unwrap_or(usize::MAX);
                 if shift == 0 {
                     return;
                 }
@@ -1080,7 +1080,7 @@ macro_rules! impl_shifts {({$($rhs:ty),+}) => {
         impl Shl<$rhs> for &Bvd {
             type Output = Bvd;
             fn shl(self, rhs: $rhs) -> Bvd {
-                let shift = usize::try_from(rhs).map_or(0, |s| s);
+                let shift = usize::try_from(rhs).unwrap_or(usize::MAX);
                 let mut new_data: Vec<u64> = repeat(0).take(Bvd::capacity_from_bit_len(self.length)).collect();
                 let mut new_idx = self.length;
                 while new_idx > shift {
@@ -1106,7 +1106,7 @@ macro_rules! impl_shifts {({$($rhs:ty),+}) => {
 
         impl ShrAssign<$rhs> for Bvd {
             fn shr_assign(&mut self, rhs: $rhs) {
-                let shift = usize::try_from(rhs).map_or(0, |s| s);
+                let shift = usize::try_from(rhs).unwrap_or(usize::MAX);
                 if shift == 0 {
                     return;
                 }
@@ -1153,7 +1153,7 @@ macro_rules! impl_shifts {({$($rhs:ty),+}) => {
         impl Shr<$rhs> for &Bvd {
             type Output = Bvd;
             fn shr(self, rhs: $rhs) -> Bvd {
-                let shift = usize::try_from(rhs).map_or(0, |s| s);
+                let shift = usize::try_from(rhs).unwrap_or(usize::MAX);
                 let mut new_data: Vec<u64> = repeat(0).take(Bvd::capacity_from_bit_len(self.length)).collect();
                 let mut new_idx = 0;
                 while new_idx + shift < self.length {
